@@ -374,6 +374,47 @@ def fold_renames(facts, config):
                 changed = True
         if text is not None:
             facts = json.loads(text)
+            text = None
+        # ---- closures that moved with their code: the closure a reference function used to contain is gone, and a new helper function that this reference
+        # function calls contains one of the same shape (`route_.. { let cb = forward_to(sender); .. }` with the forwarding closure now written in `forward_to`)
+        curc = {f["path"]: f for f in facts["fns"] if f["kind"] == "Closure"}
+        refc = {p_: s_ for p_, s_ in inv["fns"].items() if s_["kind"] == "Closure"}
+        goneC = [p_ for p_ in refc if p_ not in curc]
+        newC = [p_ for p_ in curc if p_ not in refc]
+        if goneC and newC:
+            csig = lambda sig: [re.sub(r"\{closure@[^}]*\}", "{closure}", x) for x in sig]
+            plain = lambda n: re.sub(r"::<[^:]*>", "", n or "")
+            byp = {f["path"]: f for f in facts["fns"]}
+            def calls_of(f):
+                return {plain(b["term"].get("resolved") or b["term"].get("callee")) for b in f["blocks"] if b["term"]["t"] == "call" and not b["cleanup"]}
+            pairs = []
+            for n_ in newC:
+                par = curc[n_].get("parent") or ""
+                if par in inv["fns"] or par not in byp:
+                    continue          # only closures of functions the reference does not have
+                ns = fn_signature(curc[n_])
+                cand = []
+                for m in goneC:
+                    rp = refc[m]["parent"]
+                    if rp in byp and plain(par) in {plain(c) for c in calls_of(byp[rp])} and csig(refc[m]["sig"]) == csig(ns["sig"]):
+                        a, b = set(refc[m]["calls"]), set(ns["calls"])
+                        if len(a & b) / float(len(a | b) or 1) >= 0.5:
+                            cand.append(m)
+                if len(cand) == 1:
+                    pairs.append((n_, cand[0]))
+            for n_, m in pairs:
+                if sum(1 for x in pairs if x[1] == m) != 1:
+                    continue
+                text = text or json.dumps(facts)
+                text = _path_sub(text, n_, m)
+                renamed.append("closure %s -> %s" % (n_, m))
+                changed = True
+            if text is not None:
+                facts = json.loads(text)
+                for f in facts["fns"]:
+                    if f["kind"] == "Closure" and f["path"] in refc and any(f["path"] == m for _n, m in pairs):
+                        f["parent"] = refc[f["path"]]["parent"]
+                text = None
         if not changed:
             break
     return facts, renamed
